@@ -168,3 +168,12 @@ PROPS['C15'] = {
     'assumptions': H_ASSUME + ['a moved-from remover is only destroyed, reset, re-targeted, assigned to or swapped (adding through it is not part of the alphabet)'],
     'bounds': {'quick': '<=3 listeners, depth 5', 'thorough': 'depth 8 or fixpoint'},
 }
+
+PROPS['C14'] = {
+    'title': 'Heterogeneous classes route by prototype and never confuse stored types',
+    'level': 'model_checking',
+    'parts': [{'src': 'harness/heter.cpp', 'prefix': 'C14/', 'variants': ['g17'], 'quick_variants': ['g17O0'], 'defs': ['VERIF_SUB=%d' % i]} for i in range(4)],
+    'rule': 'BFS over histories on HeterCallbackList / HeterEventDispatcher (2 keys) / HeterEventQueue with prototypes void(int), void(const std::string&), void(const Big&) (72-byte tracked struct), void(): append/prepend/insert/remove of callables of each prototype and of a callable matching two prototypes (must bind to the first), invoke/dispatch/enqueue with int, char, std::string, const char*, Big, nothing; process, processOne, clearEvents, processIf with a predicate over each prototype x {accept, refuse, odd}; free-list length in the key so recycled slots of another prototype are reached; ASan/UBSan fatal; plus the include-event mode with a std::string key passed as lvalue/const lvalue/prvalue/std::move',
+    'assumptions': H_ASSUME + ['predicates callable with several prototypes are not in the alphabet (the property states nothing about their order)'],
+    'bounds': {'quick': 'K=3 pending, <=3 listeners, depth 4-5', 'thorough': 'depth 6-8'},
+}
